@@ -9,6 +9,9 @@ import Gp.Lemmas.SBuf
 namespace Gp.Tun
 open Gp Gp.SBuf
 
+/-- `pure` of the `Res` monad is `Res.ok`. -/
+theorem res_pure_bind {α β : Type} (a : α) (f : α → Res β) : ((pure a : Res α) >>= f) = f a := rfl
+
 /-! ### slices and indices -/
 
 /-- `data[|pre| : |pre|+|mid|]` of `pre ++ mid ++ rest` is `mid`, whatever the capacity. -/
